@@ -138,14 +138,35 @@ def call_name(call: ast.Call) -> str:
     return dotted(call.func) or norm(call.func)
 
 
-def const_number(prog: Program, module: Module, name: str) -> Optional[float]:
+def fold_number(prog: Program, module: Module, node: ast.AST, depth: int = 0) -> Optional[float]:
+    """Constant folding of literals, + - * / ** and names of other module constants."""
+    if depth > 8:
+        return None
+    if isinstance(node, ast.Constant) and isinstance(node.value, (int, float)) and not isinstance(node.value, bool):
+        return float(node.value)
+    if isinstance(node, ast.UnaryOp) and isinstance(node.op, (ast.USub, ast.UAdd)):
+        v = fold_number(prog, module, node.operand, depth + 1)
+        return None if v is None else (-v if isinstance(node.op, ast.USub) else v)
+    if isinstance(node, ast.BinOp) and isinstance(node.op, (ast.Add, ast.Sub, ast.Mult, ast.Div, ast.Pow)):
+        l, r = fold_number(prog, module, node.left, depth + 1), fold_number(prog, module, node.right, depth + 1)
+        if l is None or r is None:
+            return None
+        try:
+            return {ast.Add: l + r, ast.Sub: l - r, ast.Mult: l * r, ast.Div: l / r if r else None,
+                    ast.Pow: l ** r}[type(node.op)]
+        except (OverflowError, ZeroDivisionError, ValueError):
+            return None
+    if isinstance(node, ast.Name):
+        return const_number(prog, module, node.id, depth + 1)
+    return None
+
+
+def const_number(prog: Program, module: Module, name: str, depth: int = 0) -> Optional[float]:
+    home = prog.const_home(module, name)
     v = prog.const_value(module, name)
-    if v is None:
+    if v is None or home is None:
         return None
-    try:
-        return float(ast.literal_eval(v))
-    except (ValueError, SyntaxError, TypeError):
-        return None
+    return fold_number(prog, home[0], v, depth)
 
 
 # --------------------------------------------------------------------------------------
@@ -194,6 +215,8 @@ def pref_hooks(prog: Program) -> Dict[str, object]:
                 dim = dimension_of_unit(prog, slots[slot])
                 ci = prog.cls(M_UNIT, dim)
                 return ev.new_inst(st, ci, {'_value': Scalar(A.fn(f'pref_to_raw[{slot}]', x.rf)), '_defined_units': fv})
+            if isinstance(x, SymObj):
+                return x            # an unknown quantity stays that quantity (only its display unit changes)
             raise Undecided(f'PreferredUnits.{slot} applied to {x!r}')
         return ev.lift(one, args[0])
 
